@@ -291,6 +291,17 @@ fn my_of_yaml(y: &Yaml) -> MyVal {
     }
 }
 
+/// The same data held in signed Rust integers where they fit (what a `HashMap<String, i64>` or a
+/// struct with `i64` fields presents): non-negative integers up to i64::MAX become `Value::Int`.
+fn my_signed(v: &MyVal) -> MyVal {
+    match v {
+        MyVal::UInt(u) if *u <= i64::MAX as u64 => MyVal::Int(*u as i64),
+        MyVal::Arr(a) => MyVal::Arr(a.iter().map(my_signed).collect()),
+        MyVal::Obj(o) => MyVal::Obj(MyObj(o.0.iter().map(|(k, x)| (k.clone(), my_signed(x))).collect())),
+        other => other.clone(),
+    }
+}
+
 pub fn json_of_yaml(y: &Yaml) -> Option<serde_json::Value> {
     Some(match y {
         Yaml::Null => serde_json::Value::Null,
@@ -401,6 +412,45 @@ pub fn run_c11(ctx: &mut Ctx, _known: &Known) {
         }
     }
     ctx.sample(json!({"rust_type_mappings_checked": kinds.len()}));
+    // (1b) the same number held signed or unsigned: every comparison operator against boundary
+    //      constants gives the same verdict in every representation
+    {
+        let consts = ["0", "1", "5", "-1", "9223372036854775807", "0.0", "0.5"];
+        let vals: Vec<u64> = vec![0, 1, 2, 5, 6, i64::MAX as u64];
+        for op in ["=", ">", ">=", "<", "<="] {
+            for c in consts {
+                for (shape, idv, cond) in [
+                    ("pattern", map1("f", ys(&format!("{}{}", op, c))), "A".to_string()),
+                    ("negated", map1("f", ys(&format!("{}{}", op, c))), "not A".to_string()),
+                ] {
+                    let cs = case_of(vec![("A".into(), idv), ("condition".into(), ys(&cond))], vec![], vec![0]);
+                    let rule = match Rule::from_value(implside::rule_value(&cs)) {
+                        Ok(r) => r,
+                        Err(_) => continue,
+                    };
+                    let opt = rule.clone().optimise(implside::opts(15));
+                    for v in &vals {
+                        ctx.evaluations += 1;
+                        ctx.nontrivial.insert(hash_str(&format!("sign{}{}{}{}", op, c, v, shape)));
+                        let unsigned = MyObj(vec![("f".to_string(), MyVal::UInt(*v))]);
+                        let signed = MyObj(vec![("f".to_string(), MyVal::Int(*v as i64))]);
+                        let js = serde_json::json!({ "f": v });
+                        let mut hm: HashMap<String, i64> = HashMap::new();
+                        hm.insert("f".to_string(), *v as i64);
+                        let mut hmu: HashMap<String, u64> = HashMap::new();
+                        hmu.insert("f".to_string(), *v);
+                        for (rn, rl) in [("unoptimised", &rule), ("optimised", &opt)] {
+                            let reps = [("Object with Value::UInt", rl.matches(&unsigned)), ("Object with Value::Int", rl.matches(&signed)), ("serde_json value", rl.matches(&js)), ("HashMap<String, i64>", rl.matches(&hm)), ("HashMap<String, u64>", rl.matches(&hmu))];
+                            if reps.iter().any(|(_, b)| *b != reps[0].1) {
+                                let dummy = ctx.exchange("tok s:");
+                                ctx.violation("oracle", &format!("{} rule `f: '{}{}'` ({}), f = {}: verdicts differ between representations: {:?}", rn, op, c, shape, v, reps), &dummy, &rule_yaml(&cs), true);
+                            }
+                        }
+                    }
+                }
+            }
+        }
+    }
     // (2) the same logical document in four representations gives the same verdicts
     let n = budget(ctx, 1200, 30000);
     for i in 0..n {
@@ -441,6 +491,9 @@ pub fn run_c11(ctx: &mut Ctx, _known: &Known) {
                 reps.push(("HashMap<String, custom AsValue>", rl.matches(&hm2)));
                 reps.push(("hand-written Object", rl.matches(&my)));
                 reps.push(("hand-written Document", rl.matches(&HandDoc(my.clone()))));
+                if let MyVal::Obj(signed) = my_signed(&MyVal::Obj(my.clone())) {
+                    reps.push(("hand-written Object holding signed integers (i64) where they fit", rl.matches(&signed)));
+                }
                 ctx.nontrivial.insert(hash_str(&format!("{}{}{}", i, j, rn)));
                 for (name, v) in &reps {
                     if *v != base || *v != reply_v {
@@ -478,7 +531,94 @@ fn extreme_doc(r: &mut Rng) -> Yaml {
 
 // ------------------------------------------------------------------------------------ C12
 
+/// A chain of nested objects whose innermost lookup waits until `n` threads have arrived there:
+/// all threads are then at the same nesting depth of `matches` at the same moment.
+struct Rendezvous {
+    child: Option<Box<Rendezvous>>,
+    arrived: Arc<std::sync::atomic::AtomicUsize>,
+    n: usize,
+}
+
+impl Object for Rendezvous {
+    fn get(&self, key: &str) -> Option<Value<'_>> {
+        match &self.child {
+            Some(c) => {
+                if key == "a" {
+                    Some(Value::Object(c.as_ref()))
+                } else {
+                    None
+                }
+            }
+            None => {
+                if key != "x" {
+                    return None;
+                }
+                use std::sync::atomic::Ordering;
+                self.arrived.fetch_add(1, Ordering::SeqCst);
+                let start = std::time::Instant::now();
+                while self.arrived.load(Ordering::SeqCst) < self.n && start.elapsed().as_secs() < 5 {
+                    std::thread::yield_now();
+                }
+                Some(Value::String(Cow::Borrowed("foo")))
+            }
+        }
+    }
+    fn keys(&self) -> Vec<Cow<'_, str>> {
+        vec![Cow::Borrowed(if self.child.is_some() { "a" } else { "x" })]
+    }
+    fn len(&self) -> usize {
+        1
+    }
+}
+
+fn rendezvous_chain(depth: usize, arrived: &Arc<std::sync::atomic::AtomicUsize>, n: usize) -> Rendezvous {
+    let mut cur = Rendezvous { child: None, arrived: Arc::clone(arrived), n };
+    for _ in 0..depth {
+        cur = Rendezvous { child: Some(Box::new(cur)), arrived: Arc::clone(arrived), n };
+    }
+    cur
+}
+
+/// 16 threads, each several levels deep inside `matches` on a nested rule at the same moment:
+/// every one of them gets the verdict a single thread gets.
+fn c12_concurrent_depth(ctx: &mut Ctx) {
+    for depth in [3usize, 5, 7] {
+        // rule: a: {a: {... {x: foo}}} with `depth` levels of nesting
+        let mut body = map1("x", ys("foo"));
+        for _ in 0..depth {
+            body = map1("a", body);
+        }
+        let c = case_of(vec![("A".into(), body), ("condition".into(), ys("A"))], vec![], vec![0]);
+        let rule = match Rule::from_value(implside::rule_value(&c)) {
+            Ok(r) => r,
+            Err(_) => continue,
+        };
+        for (label, rl) in [("unoptimised", rule.clone()), ("optimised", rule.clone().optimise(implside::opts(15)))] {
+            let single = {
+                let arrived = Arc::new(std::sync::atomic::AtomicUsize::new(0));
+                rl.matches(&rendezvous_chain(depth, &arrived, 1))
+            };
+            let arrived = Arc::new(std::sync::atomic::AtomicUsize::new(0));
+            let shared = Arc::new(rl);
+            let mut handles = vec![];
+            for _ in 0..16 {
+                let r = Arc::clone(&shared);
+                let a = Arc::clone(&arrived);
+                handles.push(std::thread::spawn(move || r.matches(&rendezvous_chain(depth, &a, 16))));
+            }
+            let got: Vec<bool> = handles.into_iter().map(|h| h.join().unwrap_or(false)).collect();
+            ctx.evaluations += 1;
+            ctx.nontrivial.insert(hash_str(&format!("rendezvous{}{}", depth, label)));
+            if !single || got.iter().any(|b| *b != single) {
+                let dummy = ctx.exchange("tok s:");
+                ctx.violation("oracle", &format!("{} rule nested {} levels: one thread alone gets {}, 16 threads inside matches() at the same depth get {:?}", label, depth, single, got), &dummy, &rule_yaml(&c), true);
+            }
+        }
+    }
+}
+
 pub fn run_c12(ctx: &mut Ctx, _known: &Known) {
+    c12_concurrent_depth(ctx);
     let n = budget(ctx, 250, 6000);
     let mut fresh = Driver::spawn_cmd(&std::env::current_exe().unwrap().to_string_lossy(), &["serve"]).expect("serve");
     // (0) loading is a function of the rule text alone: a rule's verdicts do not depend on which
@@ -662,7 +802,18 @@ fn c14_text_vs_value(ctx: &mut Ctx) {
         if !cond_first {
             text.push_str(&format!("  condition: {}\n", cond));
         }
-        text.push_str("true_positives: []\ntrue_negatives:\n- f: bar\n- !t {f: true}\n");
+        // anchors, aliases and merge keys: the text and its value must be read alike
+        let merge = r.below(5);
+        if merge == 0 {
+            text.push_str("  base: &b\n    f: bar\n  M:\n    <<: *b\n    g: x\n");
+        } else if merge == 1 {
+            text.push_str("  base: &b\n    f: bar\n  M: *b\n");
+        }
+        if merge == 2 {
+            text.push_str("true_positives:\n- &d {f: bar}\ntrue_negatives:\n- f: bar\n- <<: *d\n  g: 1\n- !t {f: true}\n");
+        } else {
+            text.push_str("true_positives: []\ntrue_negatives:\n- f: bar\n- !t {f: true}\n");
+        }
         ctx.evaluations += 1;
         ctx.distinct.insert(hash_str(&text));
         let a = std::panic::catch_unwind(|| Rule::from_str(&text));
@@ -686,6 +837,10 @@ fn c14_text_vs_value(ctx: &mut Ctx) {
                 let sb = format!("{} {}", crate::sx::expr_sx(&y.detection.expression), implside::ids_sx(&y.detection.identifiers));
                 if sa != sb {
                     ctx.violation("oracle", &format!("from_str and from_value of the same text build different rules: {}", first_diff(&sa, &sb)), &dummy, &text, true);
+                } else if x.true_positives != y.true_positives || x.true_negatives != y.true_negatives {
+                    ctx.violation("oracle", "from_str and from_value of the same text keep different example documents", &dummy, &text, true);
+                } else if x.validate().is_ok() != y.validate().is_ok() {
+                    ctx.violation("oracle", "from_str and from_value of the same text disagree in validate()", &dummy, &text, true);
                 }
             }
             (Err(_), Err(_)) => ctx.stat("text-vs-value-both-reject"),
@@ -815,7 +970,23 @@ pub fn run_c15(ctx: &mut Ctx, _known: &Known) {
     let n = budget(ctx, 1500, 30000);
     for i in 0..n {
         let mut r = Rng::new(ctx.seed.wrapping_mul(743).wrapping_add(i as u64));
-        let c = gen_case(&mut r, vec![0, 15], 4);
+        let mut c = gen_case(&mut r, vec![0, 15], 4);
+        if r.chance(25) {
+            // text that starts or ends with white space, or with the letter i itself
+            let ws = [" a*", " a", "\ta", "a ", " *", " -enc*", "  ab", "*b ", "iis", "i*", "ii", " i", "i a"];
+            let v = if r.chance(60) { ys(*r.pick(&ws)) } else { Yaml::Sequence(vec![ys(*r.pick(&ws)), ys(*r.pick(&ws))]) };
+            c.det.push(("W".into(), map1("s", v)));
+            for (k, cv) in c.det.iter_mut() {
+                if k == "condition" {
+                    if let Yaml::String(t) = cv {
+                        *t = format!("({}) or W", t);
+                    }
+                }
+            }
+            for t in [" a", "a", " -enc x", "  AB", "xb ", "IIS", " I", "i A", "\tA"] {
+                c.docs.push(map1("s", ys(t)));
+            }
+        }
         if !ascii_rule_ok(&c) {
             continue;
         }
